@@ -34,6 +34,11 @@ type replyModel struct {
 	// state then continues as if replied and the reason is recorded in Exempted.
 	exemptRet func(*ssa.Return) string
 	Exempted  map[*ssa.Return]string
+	// exemptEdge is the same for a dispatcher written with a single exit: the
+	// documented reason is then attached to a branch edge (the handler-is-nil
+	// edge) instead of to a return.
+	exemptEdge    func(edgeCond) string
+	ExemptedEdges map[edgeCond]string
 }
 
 // The flow states are base | tag<<1: base is the replied flag (stNo/stYes),
@@ -180,6 +185,14 @@ func (m *replyModel) branch(iff *ssa.If, succ int, s0 int) (int, bool) {
 	// no panic in flight: the recover()==nil edge of a recover function is judged by R1, not here
 	if m.root != nil && isRecoverNilEdge(edgeCond{iff, succ}) {
 		return stYes, true
+	}
+	if m.exemptEdge != nil && s == stNo && iff.Parent() == m.root {
+		if why := m.exemptEdge(edgeCond{iff, succ}); why != "" {
+			if m.ExemptedEdges != nil {
+				m.ExemptedEdges[edgeCond{iff, succ}] = why
+			}
+			return stYes, true
+		}
 	}
 	ci := core.Cond(iff.Cond)
 	if ci.Kind == "boolfield" && ci.Field == m.flag {
